@@ -217,9 +217,14 @@ pub(crate) fn wrap_single_line_slow_path<'a>(
     options: &Options<'_>,
     lines: &mut Vec<Cow<'a, str>>,
 ) {
-    let initial_width = options
-        .width
-        .saturating_sub(display_width(options.initial_indent));
+    // The first line of this paragraph is only the first line of the
+    // output if nothing has been emitted yet.
+    let first_indent = if lines.is_empty() {
+        options.initial_indent
+    } else {
+        options.subsequent_indent
+    };
+    let initial_width = options.width.saturating_sub(display_width(first_indent));
     let subsequent_width = options
         .width
         .saturating_sub(display_width(options.subsequent_indent));
@@ -229,7 +234,7 @@ pub(crate) fn wrap_single_line_slow_path<'a>(
     let split_words = split_words(words, &options.word_splitter);
     let broken_words = if options.break_words {
         let mut broken_words = break_words(split_words, line_widths[1]);
-        if !options.initial_indent.is_empty() {
+        if lines.is_empty() && !options.initial_indent.is_empty() {
             // Without this, the first word will always go into the
             // first line. However, since we break words based on the
             // _second_ line width, it can be wrong to unconditionally
